@@ -17,6 +17,12 @@ RULE = ('random tree specifications (0-3 changes x 0-3 files, every content '
         'normalisation). Trees whose serialisation raises are counted and '
         'skipped. Non-trivial = serialised tree with >= 2 content sections; '
         'distinct = fingerprint of the specification.')
+RULE += (
+         ' Also: groups of 2-4 independent trees serialised / parsed / re-'
+         'serialised in threads under the seeded baton scheduler must give '
+         'what each gives alone. Process axes (DESIGN 2.8): 2 of 16 shards '
+         'run under python -O, 4 of 16 after a hostile warm-up of the '
+         'library.')
 FLOOR = {'quick': 3000, 'thorough': 100000}
 REQUIRED_REACH = ['dom/writer.py:', 'dom/reader.py:']
 REQUIRED_COUNTERS = ['serialised', 'parsed_back_and_compared']
